@@ -22,7 +22,7 @@ def meta(rng, p=0.3):
     m = {}
     for k in rng.sample(['source', 'note', 'status', 'creator', 'date', 'type', 'confidenceScore', 'identifier'],
                         rng.randint(1, 3)):
-        m[k] = '0.9' if k == 'confidenceScore' else rng.choice(ATTRTEXT)
+        m[k] = rng.choice(['0.9', '1', '0.50', '.9', '1e-1', '1.0', '0.25 ']) if k == 'confidenceScore' else rng.choice(ATTRTEXT)
     return m
 
 
@@ -275,6 +275,22 @@ def gen_extension(rng, base, xid, version, lmfv='1.1', new_forms=False):
         if rng.random() < 0.4:
             s['relations'] = [{'target': rng.choice(base_senses + [x['id'] for x in new_senses]),
                                'relType': rng.choice(SENRELS), 'meta': dctype(rng)}]
+    # the extension's own subcategorization frames, referenced by its new senses (on new and on external entries),
+    # and the other things a new sense can carry
+    if new_senses and rng.random() < 0.7:
+        frames = [{'id': '%s-fr%d' % (xid, j), 'subcategorizationFrame': 'Extension %d ----s' % j}
+                  for j in range(rng.choice([1, 2]))]
+        ext['frames'] = frames
+        for s in new_senses:
+            if rng.random() < 0.7:
+                s['subcat'] = sorted(set(rng.choice(frames)['id'] for _ in range(rng.choice([1, 2]))))
+    for s in new_senses:
+        if rng.random() < 0.3:
+            s['examples'] = [{'text': rng.choice(TEXTS), 'meta': meta(rng)}]
+        if rng.random() < 0.3:
+            s['counts'] = [{'value': rng.randint(1, 9), 'meta': meta(rng)}]
+        if rng.random() < 0.2:
+            s['lexicalized'] = False
     # external synsets: relations / examples / definitions
     referenced = {r['target'] for ss in ext['synsets'] for r in ss.get('relations', [])} \
         | {s['synset'] for e in ext['entries'] for s in e.get('senses', []) if 'synset' in s} \
